@@ -16,7 +16,7 @@ TRUST_COMP = [
 ]
 
 
-def run(pid, families, rule, assumptions, extra_trust=(), n_quick=140, n_thorough=1500, maxops=14, extra=None):
+def run(pid, families, rule, assumptions, extra_trust=(), n_quick=140, n_thorough=1500, maxops=14, extra=None, net_corr=None):
     rep = C.Report(pid)
     rep.trusted = list(C.BASE_TRUST) + TRUST_COMP + list(extra_trust)
     thorough = C.tier() == "thorough"
@@ -38,6 +38,11 @@ def run(pid, families, rule, assumptions, extra_trust=(), n_quick=140, n_thoroug
     n = n_thorough if thorough else n_quick
     for fam in families:
         K.correspondence(rep, fam, n, maxops if not thorough else maxops + 10, tag=pid.lower())
+    if net_corr:
+        import corr_kinds  # noqa: F401
+        import corr_net  # noqa: F401
+        import corr_star  # noqa: F401
+        K.correspondence(rep, "net", net_corr[1] if thorough else net_corr[0], 8, tag=pid.lower(), maxdigits=30)
     seen = M.monitor(rep, pid, families, n if not thorough else n * 2, maxops if not thorough else maxops + 10)
     if extra:
         for k, v in (extra(rep, thorough) or {}).items():
